@@ -756,10 +756,21 @@ def c17(ck):
         ses.append("16 32 1 raw b:78%s20%s61;b:1b5b44;b:1b5b44;b:1b5b43;b:08;b:%s;b:0d;b:1b5b41;b:0d;b:63202d%s0d" % (e, e, e, e))
         # moved over at the ENDS of the line: Right at the end and Left at the start do nothing, whatever the encoded length
         ses.append("16 32 1 raw b:78%s;b:1b5b43;b:1b5b43;b:61;b:1b5b44;b:62;%s;b:79;b:0d" % (e, ";".join(["b:1b5b44"] * 5)))
+        # the character exactly fills the buffer; a second one is rejected and must change NOTHING (not the cursor either): Backspace then
+        # deletes the first one, and `b` fits again
+        ses.append("%d 32 1 raw b:61;b:%s;b:%s;b:08;b:62;b:0d" % (1 + len(e) // 2, e, e))
     def oracle_ses(case, io):
         st = parse_steps(io)
         if not st:
             return "malformed session output"
+        if case.endswith(";b:08;b:62;b:0d") and " raw b:61;b:" in case:
+            e = case.split(" raw b:61;b:")[1].split(";")[0]
+            calls = [s["calls"] for s in st if s["calls"] != "-"]
+            cp = ord(bytes.fromhex(e).decode("utf-8"))
+            if calls != ["6162(-)"]:
+                return ("scalar U+%04X: a rejected character (buffer exactly full) must change nothing - a c c(rejected) Backspace b Enter must dispatch `ab`, "
+                        "handler saw %s" % (cp, calls))
+            return None
         if ";b:1b5b43;b:1b5b43;b:61;" in case:
             e = case.split("b:78")[1].split(";")[0]
             calls = [s["calls"] for s in st if s["calls"] != "-"]
@@ -1444,6 +1455,10 @@ def tab_sweep_sessions(declgen, sets, maxpre=3):
                 for lead in ("", "20"):
                     for cap in range(len(pre) + len(lead) // 2, len(nb) + len(lead) // 2 + 3):
                         out.append("%d 16 1 d%d b:%s%s;b:09;b:0d" % (cap, k, lead, gen.hx(pre)))
+                # Tab that finds nothing to do (an argument was started / blanks follow), then ONLY a cursor move, then Tab again: the second
+                # request is another one (the blanks right of the cursor do not count)
+                for blanks, lefts in ((1, 1), (2, 2), (2, 1)):
+                    out.append("%d 16 1 d%d b:%s%s;b:09;%sb:09;b:5a;b:0d" % (len(nb) + 8, k, gen.hx(pre), "20" * blanks, "b:1b5b44;" * lefts))
                 # editing right AFTER the completion put multi-byte characters into the line: Backspace over them, Left and an insertion
                 # (a cursor or a cached "ASCII only" flag not brought up to date by the completion shows here)
                 for tail in ("b:08;b:08", "b:08;b:08;b:08;b:78", "b:1b5b44;b:1b5b44;b:78", "b:1b5b44;b:6e", "b:08;b:1b5b44;b:08;b:79;b:1b5b43;b:1b5b43;b:7a"):
@@ -1505,6 +1520,9 @@ def c09(ck):
                 lines += declgen.signed_boundary_lines(rng, c_)   # integer positionals at and beyond both ends of their range (after `--`)
         for i in range(0, len(lines), 8):
             cases.append(lines_to_session(k, lines[i:i + 8], cap=120))
+        # the second time: the same line again right away, after a rejected line, after a help request
+        for l in rng.sample(lines, min(len(lines), 10)):
+            cases.append(lines_to_session(k, [l, l, "nosuch --x", l, "help", l, l + " --help", l], cap=120))
 
     def proj(o):
         st = parse_steps(o)
